@@ -342,8 +342,9 @@ Proof.
   rewrite E.
   etransitivity.
   { apply Permutation_app; [apply swapif_perm|apply Permutation_app; [reflexivity|apply swapif_perm]]. }
+  rewrite (app_assoc A mid D).
   etransitivity; [apply Permutation_app_comm|].
-  rewrite <- app_assoc. apply Permutation_app_head. apply Permutation_app_comm.
+  apply Permutation_app_tail. apply Permutation_app_comm.
 Qed.
 
 Lemma rearrange_range_length : forall m rng, length (rearrange_range m rng) = length rng.
@@ -453,3 +454,250 @@ Qed.
 Lemma sub_reverse_spec : forall d s,
   sub_reverse d s = (if cov_logical s then cov_backwards s else negb (Bool.eqb (cov_backwards s) (dir_backward d))).
 Proof. intros. unfold sub_reverse. destruct (cov_logical s), (cov_backwards s), (dir_backward d); reflexivity. Qed.
+
+(* ------------------------------------------------------------------ drive: totality *)
+
+Section DriveTotal.
+  Context {E C : Type} (M : machine E C) (st : state_table E) (ng : N).
+  Variable Inv : zbuf -> Prop.
+
+  Definition pot (b : zbuf) (ops : Z) : nat := length (rest b) + Z.to_nat ops.
+
+  (* a transition that leaves the buffer successful keeps the invariant and does not raise the
+     potential (remaining input + remaining DONT_ADVANCE budget) *)
+  Hypothesis Htrans : forall c e b ops c' b' ops' a,
+    Inv b -> m_transition M c e b ops = Ok (c', b', ops', a) -> ok b' = true ->
+    Inv b' /\ pot b' ops' <= pot b ops.
+  Hypothesis Hnext : forall b b2,
+    Inv b -> rest b <> [] -> next_glyph b = Ok b2 -> ok b2 = true -> Inv b2 /\ length (rest b2) < length (rest b).
+
+  Lemma drive_loop_total : forall fuel state c b ops amb,
+    Inv b -> pot b ops < fuel -> drive_loop M st ng fuel state c b ops amb <> None.
+  Proof.
+    induction fuel; intros state c b ops amb HI Hp; [lia|].
+    cbn [drive_loop].
+    destruct (st_entry st state (cur_class st ng b)) as [e|]; [|discriminate].
+    destruct (m_transition M c e b ops) as [[[[c1 b1] ops1] a1]|] eqn:ET; [|discriminate].
+    destruct (rest b1) as [|x t] eqn:ER; [discriminate|].
+    destruct (ok b1) eqn:EO; cbn [negb]; [|discriminate].
+    destruct (Htrans _ _ _ _ _ _ _ _ HI ET EO) as (HI1 & Hp1).
+    assert (Hne : rest b1 <> []) by (rewrite ER; discriminate).
+    destruct (m_can_advance M e).
+    - destruct (next_glyph b1) as [b2|] eqn:EN; [|discriminate].
+      destruct (ok b2) eqn:EO2; [|discriminate].
+      destruct (Hnext _ _ HI1 Hne EN EO2) as (HI2 & Hl).
+      apply IHfuel; [exact HI2|]. unfold pot in *. lia.
+    - destruct (ops1 <=? 0)%Z eqn:EZ.
+      + destruct (next_glyph b1) as [b2|] eqn:EN; [|discriminate].
+        destruct (ok b2) eqn:EO2; [|discriminate].
+        destruct (Hnext _ _ HI1 Hne EN EO2) as (HI2 & Hl).
+        apply IHfuel; [exact HI2|]. apply Z.leb_le in EZ. unfold pot in *.
+        replace (Z.to_nat (ops1 - 1)) with 0 by lia. lia.
+      + rewrite EO. apply IHfuel; [exact HI1|]. apply Z.leb_gt in EZ. unfold pot in *.
+        replace (Z.to_nat (ops1 - 1)) with (Z.to_nat ops1 - 1) by lia. lia.
+  Qed.
+End DriveTotal.
+
+(* ---- in-place buffers: idx = |pre|, no output mode *)
+Definition inplace (b : zbuf) : Prop := out_mode b = false /\ inplace_inv b.
+
+Lemma map_range_length : forall A (f : A -> A) l s e, length (map_range f s e l) = length l.
+Proof. induction l; intros [|s] [|e]; cbn; auto. Qed.
+
+Lemma inplace_of_arr : forall b a, inplace b -> length a = length (arr b) ->
+  inplace (of_arr b a) /\ length (rest (of_arr b a)) = length (rest b) /\ ok (of_arr b a) = ok b.
+Proof.
+  intros b a [Hm Hi] L. split; [split; [exact Hm|now apply of_arr_inv]|]. split; [|reflexivity].
+  unfold of_arr, with_pr. cbn. rewrite skipn_length, L. unfold arr. rewrite app_length.
+  unfold inplace_inv in Hi. lia.
+Qed.
+
+Lemma inplace_next_glyph : forall b b2, inplace b -> rest b <> [] -> next_glyph b = Ok b2 -> ok b2 = true ->
+  inplace b2 /\ length (rest b2) < length (rest b).
+Proof.
+  intros b b2 [Hm Hi] Hne H _. unfold next_glyph in H. destruct (rest b) as [|x t] eqn:ER; [congruence|].
+  rewrite Hm in H. inversion H; subst b2. unfold inplace, inplace_inv, with_pr. cbn.
+  rewrite app_length. cbn. unfold inplace_inv in Hi. split; [split; [exact Hm|lia]|lia].
+Qed.
+
+Lemma flag_while_length : forall c stop m l, length (fst (flag_while_ne_fwd c stop m l)) = length l.
+Proof.
+  induction l; cbn; [reflexivity|].
+  destruct (N.eqb (cluster a) stop); [reflexivity|].
+  destruct (flag_while_ne_fwd c stop m l) as [t' ap] eqn:EF. cbn in IHl.
+  destruct (N.eqb (cluster a) c); cbn; now rewrite IHl.
+Qed.
+
+Lemma infos_set_glyph_flags_length : forall lvl l s e c m r, s <= e ->
+  infos_set_glyph_flags lvl l s e c m = Ok r -> length (fst r) = length l.
+Proof.
+  intros lvl l s e c m r Hse H. unfold infos_set_glyph_flags in H.
+  destruct (s =? e) eqn:E0; [inversion H; reflexivity|].
+  destruct (nth_error l s) as [first|] eqn:E1; [|discriminate].
+  destruct (nth_error l (e - 1)) as [last|] eqn:E2; [|discriminate].
+  assert (Hs : s < length l) by (apply nth_error_Some; congruence).
+  assert (He : e - 1 < length l) by (apply nth_error_Some; congruence).
+  apply Nat.eqb_neq in E0.
+  assert (HL : length (firstn s l) + length (slice l s e) + length (skipn e l) = length l).
+  { unfold slice. rewrite !firstn_length, !skipn_length. lia. }
+  destruct ((lvl =? 2)%N || (negb (c =? cluster first)%N && negb (c =? cluster last)%N))%bool.
+  - destruct (flag_all_ne c m (slice l s e)) as [mid' ap] eqn:EF. inversion H; subst r. cbn.
+    unfold flag_all_ne in EF. inversion EF; subst mid'. rewrite !app_length, map_length. lia.
+  - destruct (c =? cluster first)%N.
+    + destruct (flag_while_ne_fwd c (cluster first) m (rev (slice l s e))) as [r' ap] eqn:EF.
+      inversion H; subst r. cbn. rewrite !app_length, rev_length.
+      replace (length r') with (length (fst (flag_while_ne_fwd c (cluster first) m (rev (slice l s e))))) by (now rewrite EF).
+      rewrite flag_while_length, rev_length. lia.
+    + destruct (flag_while_ne_fwd c (cluster last) m (slice l s e)) as [mid' ap] eqn:EF.
+      inversion H; subst r. cbn. rewrite !app_length.
+      replace (length mid') with (length (fst (flag_while_ne_fwd c (cluster last) m (slice l s e)))) by (now rewrite EF).
+      rewrite flag_while_length. lia.
+Qed.
+
+(* the facts the potential argument needs about an in-place buffer operation *)
+Definition keeps_inplace (b b' : zbuf) : Prop :=
+  inplace b' /\ length (rest b') = length (rest b) /\ ok b' = ok b /\
+  length (arr b') = length (arr b) /\ dead b' = dead b /\ level b' = level b.
+
+Lemma keeps_inplace_refl : forall b, inplace b -> keeps_inplace b b.
+Proof. intros b H. repeat split; try apply H; reflexivity. Qed.
+
+Lemma keeps_inplace_trans : forall a b c, keeps_inplace a b -> keeps_inplace b c -> keeps_inplace a c.
+Proof. intros a b c (I1&R1&O1&A1&D1&L1) (I2&R2&O2&A2&D2&L2). repeat split; try apply I2; congruence. Qed.
+
+Lemma keeps_inplace_of_arr : forall b a, inplace b -> length a = length (arr b) -> keeps_inplace b (of_arr b a).
+Proof.
+  intros b a H L. destruct (inplace_of_arr b a H L) as (I & R & O).
+  repeat split; try apply I; auto. now rewrite arr_of_arr.
+Qed.
+
+Lemma keeps_inplace_scratch : forall b s, inplace b -> keeps_inplace b (with_scratch b s).
+Proof. intros b s [Hm Hi]. repeat split; auto. Qed.
+
+Lemma keeps_inplace_add_scratch : forall b a, inplace b -> keeps_inplace b (add_scratch b a).
+Proof. intros b [|] H; cbn; [now apply keeps_inplace_scratch|now apply keeps_inplace_refl]. Qed.
+
+Lemma set_glyph_flags_inplace : forall b m s e b', inplace b ->
+  set_glyph_flags b m (Some s) (Some e) true false = Ok b' -> keeps_inplace b b'.
+Proof.
+  intros b m s e b' Hin H. unfold set_glyph_flags in H.
+  set (e' := Nat.min e (blen b)) in *.
+  destruct (e' <? s) eqn:E0; [discriminate|]. apply Nat.ltb_ge in E0.
+  cbn [andb negb] in H.
+  destruct (e' - s <? 2) eqn:E1; [inversion H; subst; now apply keeps_inplace_refl|].
+  cbn [negb orb] in H.
+  set (bs := with_scratch b (N.lor (scratch b) SCRATCH_HAS_GLYPH_FLAGS)) in *.
+  assert (Hbs : keeps_inplace b bs) by (now apply keeps_inplace_scratch).
+  destruct Hin as [Hm Hi].
+  assert (Hm' : out_mode bs = false) by exact Hm. rewrite Hm' in H.
+  match type of H with bind ?x _ = _ => destruct x as [c|] eqn:EC end; cbn [bind] in H; [|discriminate].
+  match type of H with bind ?x _ = _ => destruct x as [r|] eqn:ER end; cbn [bind] in H; [|discriminate].
+  inversion H; subst b'. clear H.
+  apply infos_set_glyph_flags_length in ER; [|exact E0].
+  match goal with |- keeps_inplace b (add_scratch ?x ?y) => change x with (of_arr bs (fst r)) end.
+  pose proof (keeps_inplace_of_arr bs (fst r) (proj1 Hbs) ER) as K.
+  eapply keeps_inplace_trans; [exact Hbs|].
+  eapply keeps_inplace_trans; [exact K|].
+  apply keeps_inplace_add_scratch. apply K.
+Qed.
+
+Lemma merge_clusters_full_inplace : forall b s e b', inplace b ->
+  merge_clusters_full b s e = Ok b' -> keeps_inplace b b'.
+Proof.
+  intros b s e b' Hin H. unfold merge_clusters_full in H.
+  destruct (e - s <? 2); [inversion H; subst; now apply keeps_inplace_refl|].
+  destruct (level b =? 2)%N.
+  - unfold unsafe_to_break in H. eapply set_glyph_flags_inplace; eauto.
+  - unfold merge_clusters in H.
+    destruct (e - s <? 2); [inversion H; subst; now apply keeps_inplace_refl|].
+    destruct (level b =? 2)%N; [inversion H; subst; now apply keeps_inplace_refl|].
+    destruct Hin as [Hm Hi]. rewrite Hm in H.
+    unfold merge_array in H.
+    destruct (nth_error (pre b ++ rest b) s) as [first|]; [|discriminate].
+    destruct (nth_error (pre b ++ rest b) (e - 1)) as [last|]; [|discriminate].
+    cbn in H. inversion H; subst b'. clear H.
+    match goal with |- keeps_inplace b (with_pr b (firstn (dead b) ?a) (skipn (dead b) ?a) (dead b)) =>
+      change (keeps_inplace b (of_arr b a)) end.
+    apply keeps_inplace_of_arr; [split; assumption|]. apply map_range_length.
+Qed.
+
+(* ---- rearrangement transition *)
+Lemma rearr_transition_inplace : forall c e b ops c' b' ops' a, inplace b ->
+  rearr_transition c e b ops = Ok (c', b', ops', a) -> keeps_inplace b b' /\ ops' = ops.
+Proof.
+  intros c e b ops c' b' ops' a Hin H. unfold rearr_transition in H.
+  match type of H with (if ?t then _ else _) = _ => destruct t eqn:ET end.
+  2:{ inversion H; subst. split; [now apply keeps_inplace_refl|reflexivity]. }
+  apply andb_true_iff in ET. destruct ET as [_ ET]. apply Nat.ltb_lt in ET.
+  match type of H with (if ?t then _ else _) = _ => destruct t end.
+  2:{ inversion H; subst. split; [now apply keeps_inplace_refl|reflexivity]. }
+  match type of H with bind ?x _ = _ => destruct x as [b1|] eqn:E1 end; cbn [bind] in H; [|discriminate].
+  match type of H with bind ?x _ = _ => destruct x as [b2|] eqn:E2 end; cbn [bind] in H; [|discriminate].
+  inversion H; subst c' b' ops' a. clear H. split; [|reflexivity].
+  pose proof (merge_clusters_full_inplace _ _ _ _ Hin E1) as K1.
+  pose proof (merge_clusters_full_inplace _ _ _ _ (proj1 K1) E2) as K2.
+  eapply keeps_inplace_trans; [exact K1|]. eapply keeps_inplace_trans; [exact K2|].
+  apply keeps_inplace_of_arr; [apply K2|].
+  set (arr2 := arr b2).
+  match goal with |- length (firstn ?s arr2 ++ rearrange_range ?m (slice arr2 ?s ?en) ++ skipn ?en arr2) = _ =>
+    set (s0 := s) in *; set (en0 := en) in * end.
+  rewrite !app_length, rearrange_range_length. unfold slice.
+  rewrite !firstn_length, !skipn_length. lia.
+Qed.
+
+(* ---- contextual transition *)
+Lemma set_gid_at_inplace : forall b i g, inplace b -> keeps_inplace b (set_gid_at b i g).
+Proof. intros. unfold set_gid_at. apply keeps_inplace_of_arr; [assumption|apply map_range_length]. Qed.
+
+Lemma ctx_transition_inplace : forall subs ng c e b ops c' b' ops' a, inplace b ->
+  ctx_transition subs ng c e b ops = Ok (c', b', ops', a) -> keeps_inplace b b' /\ ops' = ops.
+Proof.
+  intros subs ng [ms mk] e b ops c' b' ops' a Hin H. unfold ctx_transition in H.
+  match type of H with (if ?t then _ else _) = _ => destruct t end.
+  { inversion H; subst. split; [now apply keeps_inplace_refl|reflexivity]. }
+  match type of H with bind ?x _ = _ => destruct x as [gm|] end; cbn [bind] in H; [|discriminate].
+  destruct (ctx_replacement subs ng (ce_mark_index e) gm) as [rm|amb].
+  2:{ inversion H; subst. split; [now apply keeps_inplace_refl|reflexivity]. }
+  set (b1 := match rm with Some r => set_gid_at b mk r | None => b end) in *.
+  assert (K1 : keeps_inplace b b1).
+  { unfold b1. destruct rm; [now apply set_gid_at_inplace|now apply keeps_inplace_refl]. }
+  destruct (blen b =? 0); [discriminate|].
+  match type of H with bind ?x _ = _ => destruct x as [gc|] end; cbn [bind] in H; [|discriminate].
+  destruct (ctx_replacement subs ng (ce_current_index e) gc) as [rc|amb].
+  2:{ inversion H; subst. split; [exact K1|reflexivity]. }
+  inversion H; subst c' b' ops' a. split; [|reflexivity].
+  destruct rc; [|exact K1].
+  eapply keeps_inplace_trans; [exact K1|]. apply set_gid_at_inplace. apply K1.
+Qed.
+
+(* ---- totality of the drive loop for the in-place machines, for every state table *)
+Lemma inplace_drive_start : forall b, out_mode b = false -> inplace (drive_start true b).
+Proof. intros b H. unfold drive_start, inplace, inplace_inv, with_pr. cbn. auto. Qed.
+
+Lemma rearr_drive_total : forall st ng b ops state c amb, out_mode b = false ->
+  let b0 := drive_start true b in
+  drive_loop rearr_machine st ng (drive_fuel b0 ops) state c b0 ops amb <> None.
+Proof.
+  intros st ng b ops state c amb Hm b0.
+  apply (drive_loop_total rearr_machine st ng inplace).
+  - intros c1 e b1 ops1 c' b' ops' a HI HT _.
+    destruct (rearr_transition_inplace _ _ _ _ _ _ _ _ HI HT) as [K ->].
+    split; [apply K|]. unfold pot. destruct K as (_ & R & _). lia.
+  - apply inplace_next_glyph.
+  - now apply inplace_drive_start.
+  - unfold drive_fuel, drive_potential, pot. lia.
+Qed.
+
+Lemma ctx_drive_total : forall subs st ng b ops state c amb, out_mode b = false ->
+  let b0 := drive_start true b in
+  drive_loop (ctx_machine subs ng) st ng (drive_fuel b0 ops) state c b0 ops amb <> None.
+Proof.
+  intros subs st ng b ops state c amb Hm b0.
+  apply (drive_loop_total (ctx_machine subs ng) st ng inplace).
+  - intros c1 e b1 ops1 c' b' ops' a HI HT _.
+    destruct (ctx_transition_inplace _ _ _ _ _ _ _ _ _ _ HI HT) as [K ->].
+    split; [apply K|]. unfold pot. destruct K as (_ & R & _). lia.
+  - apply inplace_next_glyph.
+  - now apply inplace_drive_start.
+  - unfold drive_fuel, drive_potential, pot. lia.
+Qed.
